@@ -13,7 +13,7 @@ open ZygoVerif.Core ZygoVerif.VM
 
 theorem fclaimE_succ {n : Nat} (hE : FClaimE n) (hB : FClaimB n) (hC : FClaimC n) (hA : FClaimA n) (hU : FClaimU n)
     (hS : FClaimS n) (hN : FClaimN n) (hL : FClaimL n) (hP : FClaimP n) (hV : FClaimV n) (hF : FClaimF n)
-    (hG : ∀ k, n = k + 1 → FClaimG k) : FClaimE (n + 1) := by
+    (hG : ∀ k, n = k + 1 → ∀ name, hoB name → FClaimH k name) : FClaimE (n + 1) := by
   intro fnOk self e he isFn c gs r hc hfn m s rs env pre post hrel hgen hseg
   cases e with
   | int x =>
